@@ -9,7 +9,7 @@ DESIGN_REF = '3.13'
 CHUNK = 40
 CHUNK_WALL = 600
 RULE = ('for each usage script {blocking acquire; timed acquire_ctx; with on a default-timeout lock; reentrant acquire nested 3 deep; two '
-        'rounds of with; a process that uses a FileLock object it inherited (already used) from its still-living parent across fork(); a daemon-style process with stdin closed that execs a helper program while holding} a real child process is first stepped alone to completion to count its controller steps n (every line event '
+        'rounds of with; a process that uses a FileLock object it inherited (already used) from its still-living parent across fork(); a daemon-style process with stdin closed that execs a helper program while holding; a timed acquire that first has to wait for another holder and whose process forks a long-lived child while it sleeps between two polls} a real child process is first stepped alone to completion to count its controller steps n (every line event '
         'inside aiuti/filelock.py plus critical-section markers); then for EVERY k in 0..n a fresh child is stepped to event k and '
         'SIGKILLed, with 0, 1 and 2 other stepped contender processes parked at seeded positions (4 configurations per k in quick, 12 in thorough: contenders x killed process reaped '
         'at once / left a zombie x probe through the blocking / the polling acquire path). After the kill: if the kernel reports the lock free, a fresh process stepped alone must enter its '
@@ -49,9 +49,11 @@ def make_case(batch, seed):
         sc['rounds'] = max(sc['rounds'], rng.randint(1, 3))
         conts.append({'script': sc, 'advance': rng.randrange(0, 160)})
     # the killed process is reaped at once or left a zombie; the probe uses the blocking or the polling path
-    return {'prog': {'world': 'proc-crash', 'script': batch['profile'], 'kill_at': k, 'contenders': conts,
-                     'zombie': cfg % 2 == 1, 'timed_probe': (cfg // 2) % 2 == 1},
-            'sched': {'seed': seed}}
+    prog = {'world': 'proc-crash', 'script': batch['profile'], 'kill_at': k, 'contenders': conts,
+            'zombie': cfg % 2 == 1, 'timed_probe': (cfg // 2) % 2 == 1}
+    if pw.CRASH_SCRIPTS[batch['profile']].get('pre_holder'):
+        prog['extra_polls'] = rng.randrange(3)
+    return {'prog': prog, 'sched': {'seed': seed}}
 
 
 def run_case(case):
